@@ -436,6 +436,58 @@ static blob levels_overhang(int k) {
     return r;
 }
 
+/* directed: a legal LZ4_RAW page no carquet compressor would write: the last match (offset 16, length `ml`) ends exactly `tail`
+ * (5 or 6) bytes before the end of the page - the minimum the block format allows.  A decoder that copies matches in whole
+ * 8-byte strides overruns a destination of exactly uncompressed_page_size bytes.  One REQUIRED INT32 column, 8 values. */
+static blob lz4_tail(hctx* h, int lit, int ml, int tail) {
+    char path[128]; snprintf(path, sizeof path, "/tmp/verif_c04_%d_lz.parquet", (int)getpid());
+    blob none; none.b = h_alloc(0); none.n = 0;
+    int D = lit + ml + tail; if (D % 4 || lit < 16 || D > 64) return none;
+    uint8_t P[64]; for (int i = 0; i < D; i++) P[i] = (uint8_t)h_next(h);
+    for (int i = 0; i < ml; i++) P[lit + i] = P[lit - 16 + i];
+    carquet_error_t err; memset(&err, 0, sizeof err);
+    carquet_schema_t* sc = carquet_schema_create(&err);
+    (void)!carquet_schema_add_column(sc, "v", CARQUET_PHYSICAL_INT32, NULL, CARQUET_REPETITION_REQUIRED, 0);
+    carquet_writer_options_t wo; carquet_writer_options_init(&wo); wo.compression = CARQUET_COMPRESSION_UNCOMPRESSED;
+    carquet_writer_t* w = carquet_writer_create(path, sc, &wo, &err);
+    if (!w) { carquet_schema_free(sc); return none; }
+    (void)!carquet_writer_write_batch(w, 0, P, D / 4, NULL, NULL);
+    int ok = carquet_writer_close(w) == CARQUET_OK; carquet_schema_free(sc);
+    if (!ok) return none;
+    FILE* f = fopen(path, "rb"); fseek(f, 0, SEEK_END); long n = ftell(f); fseek(f, 0, SEEK_SET);
+    uint8_t* fb = h_alloc((size_t)n); if (fread(fb, 1, (size_t)n, f) != (size_t)n) n = 0; fclose(f); unlink(path);
+    if (n < 12) { free(fb); return none; }
+    uint32_t flen = (uint32_t)fb[n - 8] | ((uint32_t)fb[n - 7] << 8) | ((uint32_t)fb[n - 6] << 16) | ((uint32_t)fb[n - 5] << 24);
+    size_t fstart = (size_t)n - 8 - flen;
+    carquet_arena_t arena; carquet_arena_init(&arena);
+    parquet_file_metadata_t md; parquet_page_header_t ph; size_t hs = 0;
+    if (parquet_parse_file_metadata(fb + fstart, flen, &arena, &md, &err) != CARQUET_OK || md.num_row_groups != 1 ||
+        parquet_parse_page_header(fb + 4, fstart - 4, &ph, &hs, &err) != CARQUET_OK) { carquet_arena_destroy(&arena); free(fb); return none; }
+    uint8_t body[96]; size_t bl = 0;
+    body[bl++] = (uint8_t)(((lit >= 15 ? 15 : lit) << 4) | (ml - 4)); if (lit >= 15) body[bl++] = (uint8_t)(lit - 15);
+    memcpy(body + bl, P, (size_t)lit); bl += (size_t)lit; body[bl++] = 16; body[bl++] = 0;
+    body[bl++] = (uint8_t)(tail << 4); memcpy(body + bl, P + lit + ml, (size_t)tail); bl += (size_t)tail;
+    ph.uncompressed_page_size = D; ph.compressed_page_size = (int32_t)bl; ph.has_crc = false;
+    carquet_buffer_t hb, fbuf; carquet_buffer_init(&hb); carquet_buffer_init(&fbuf);
+    blob r = none;
+    if (parquet_write_page_header(&ph, &hb, NULL) == CARQUET_OK) {
+        parquet_row_group_t* rg = &md.row_groups[0]; parquet_column_metadata_t* cm = &rg->columns[0].metadata;
+        cm->codec = CARQUET_COMPRESSION_LZ4_RAW;
+        cm->total_compressed_size = (int64_t)(hb.size + bl); cm->total_uncompressed_size = (int64_t)(hb.size + (size_t)D); cm->data_page_offset = 4;
+        rg->columns[0].file_offset = 4; rg->total_byte_size = cm->total_uncompressed_size;
+        if (parquet_write_file_metadata(&md, &fbuf, NULL) == CARQUET_OK) {
+            r.n = 4 + hb.size + bl + fbuf.size + 8; r.b = h_alloc(r.n); uint8_t* p = r.b;
+            memcpy(p, "PAR1", 4); p += 4; memcpy(p, hb.data, hb.size); p += hb.size; memcpy(p, body, bl); p += bl;
+            memcpy(p, fbuf.data, fbuf.size); p += fbuf.size;
+            uint32_t FL = (uint32_t)fbuf.size; *p++ = (uint8_t)FL; *p++ = (uint8_t)(FL >> 8); *p++ = (uint8_t)(FL >> 16); *p++ = (uint8_t)(FL >> 24);
+            memcpy(p, "PAR1", 4);
+            free(none.b);
+        }
+    }
+    carquet_buffer_destroy(&hb); carquet_buffer_destroy(&fbuf); carquet_arena_destroy(&arena); free(fb);
+    return r;
+}
+
 static void gen_c04(hctx* h) {
     long bases = h->thorough ? 40 : 6, per = h->thorough ? 400 : 60;
     if (h->shards > 1) bases = (bases + h->shards - 1) / h->shards;
@@ -466,6 +518,13 @@ static void gen_c04(hctx* h) {
             if (f.n) for (int mode = 0; mode < 3; mode++) exercise(h, f, mode, desc);
             free(f.b);
         }
+        { static const int lt[][3] = { {18, 9, 5}, {16, 10, 6}, {17, 9, 6}, {26, 17, 5}, {16, 18, 6}, {19, 4, 5}, {16, 4, 12} };
+          for (int i = 0; i < 7; i++) {
+              char desc[48]; snprintf(desc, sizeof desc, "lz4tail_%d_%d_%d", lt[i][0], lt[i][1], lt[i][2]);
+              blob f = lz4_tail(h, lt[i][0], lt[i][1], lt[i][2]);
+              if (f.n) for (int mode = 0; mode < 3; mode++) exercise(h, f, mode, desc);
+              free(f.b);
+          } }
         { static const long fn[] = { 1, 8, 30 }; static const uint32_t fc[] = { 0x7FFFFFFFu, 0x7FFFFFFFu, 100000000u };
           for (int i = 0; i < 3; i++) {
               char desc[48]; snprintf(desc, sizeof desc, "fatchain_%ld_%u", fn[i], fc[i]);
